@@ -788,7 +788,7 @@ class Obs:
         else:
             if isinstance(y, np.ndarray):
                 return np.array([self + o for o in y])
-            elif isinstance(y, complex):
+            elif isinstance(y, (complex, np.complexfloating)):
                 return CObs(self, 0) + y
             elif y.__class__.__name__ in ['Corr', 'CObs']:
                 return NotImplemented
@@ -804,7 +804,7 @@ class Obs:
         else:
             if isinstance(y, np.ndarray):
                 return np.array([self * o for o in y])
-            elif isinstance(y, complex):
+            elif isinstance(y, (complex, np.complexfloating)):
                 return CObs(self * y.real, self * y.imag)
             elif y.__class__.__name__ in ['Corr', 'CObs']:
                 return NotImplemented
@@ -820,7 +820,7 @@ class Obs:
         else:
             if isinstance(y, np.ndarray):
                 return np.array([self - o for o in y])
-            elif isinstance(y, complex):
+            elif isinstance(y, (complex, np.complexfloating)):
                 return CObs(self, 0) - y
             elif y.__class__.__name__ in ['Corr', 'CObs']:
                 return NotImplemented
@@ -842,7 +842,7 @@ class Obs:
         else:
             if isinstance(y, np.ndarray):
                 return np.array([self / o for o in y])
-            elif isinstance(y, complex):
+            elif isinstance(y, (complex, np.complexfloating)):
                 return CObs(self, 0) / y
             elif y.__class__.__name__ in ['Corr', 'CObs']:
                 return NotImplemented
@@ -855,7 +855,7 @@ class Obs:
         else:
             if isinstance(y, np.ndarray):
                 return np.array([o / self for o in y])
-            elif isinstance(y, complex):
+            elif isinstance(y, (complex, np.complexfloating)):
                 return y / CObs(self, 0)
             elif y.__class__.__name__ in ['Corr', 'CObs']:
                 return NotImplemented
